@@ -243,6 +243,25 @@ def run_property(ctx, prop, replay=None):
         mons = monitors(prop, c)
         ctx.fail(f"{prop}:traversal-correspondence", "the traversal (graph.py / node.py / runner.py) and the model disagree on a trace",
                  d, False)
+    if prop == "C04":
+        # the hypotheses of C04_mutual_exclusion on every exported graph: one owner per node, bridged classes agreeing on flat
+        # (must always hold) and on the reuse scope (fails for mixed lxc/remote worker sets under a partial pool_scope: those
+        # graphs are outside the theorem and only covered by the monitors)
+        from harness.common import coq_failing
+        res = coq_failing(ctx, travgen.IMPORTS, "trav_case", [c["term"] for c in cases], ["trav_gwf_core", "trav_gwf"],
+                          shard=max(1, len(cases) // 16 + 1), tag="gwf", timeout=900)
+        ctx.obligation("hypotheses:gwf_core_b-holds-of-exported-graphs", "correspondence", not res["trav_gwf_core"],
+                       f"{len(res['trav_gwf_core'])} of {len(cases)} exported graphs have a node with two owners or bridged copies that do not form a class")
+        for k in res["trav_gwf_core"][:1]:
+            d = travgen.replay_data(cases[k])
+            d["obligation"] = "hypotheses:gwf_core_b-holds-of-exported-graphs"
+            ctx.fail("C04:theorem-hypotheses-not-met", "an exported graph does not meet the structural hypotheses (gwf_core_b) of C04_mutual_exclusion", d, False)
+        outside = [k for k in res["trav_gwf"] if k not in set(res["trav_gwf_core"])]
+        mixed = [k for k in outside if len({w.get("spawner", "lxc") for w in cases[k]["spec"]["workers"]}) > 1]
+        ctx.obligation("hypotheses:scope-disagreement-only-for-mixed-spawners", "correspondence", len(mixed) == len(outside),
+                       f"{len(outside)} graphs whose copies derive different reuse scopes, {len(mixed)} of them with mixed lxc/remote workers")
+        ctx.coverage["graphs_covered_by_C04_mutual_exclusion"] = len(cases) - len(res["trav_gwf"])
+        ctx.coverage["graphs_outside_the_theorem_scope_disagreement"] = len(outside)
     seen = set()
     hits = 0
     for c in cases:
